@@ -8,5 +8,8 @@ CONSTANTS
   Interleave = FALSE
   Cfgs <- MCCfgsOne
   OraclesFor <- MCOraclesA
-INVARIANTS TypeOK JobTimeRight JobCoversExactly OnlyStrictlyLaterOnStart SyncWindowRight EpochTickOnce NoFutureDutyUnscheduled ReorgActedOn
+  MaxAccts = 0
+  AnswersFor <- AllAnswers
+  Deviation = {}
+INVARIANTS TypeOK JobTimeRight JobCoversExactly OnlyStrictlyLaterOnStart SyncWindowRight EpochTickOnce NoFutureDutyUnscheduled ReorgActedOn RefreshCompletes
 CHECK_DEADLOCK FALSE
